@@ -168,11 +168,18 @@ func (s *histogram[N]) delta(dest *metricdata.Aggregation) int {
 
 		if !s.noSum {
 			hDPts[i].Sum = val.total
+		} else {
+			// The destination point is reused memory: do not report what
+			// it held before.
+			hDPts[i].Sum = 0
 		}
 
 		if !s.noMinMax {
 			hDPts[i].Min = metricdata.NewExtrema(val.min)
 			hDPts[i].Max = metricdata.NewExtrema(val.max)
+		} else {
+			hDPts[i].Min = metricdata.Extrema[N]{}
+			hDPts[i].Max = metricdata.Extrema[N]{}
 		}
 
 		collectExemplars(&hDPts[i].Exemplars, val.res.Collect)
@@ -224,11 +231,18 @@ func (s *histogram[N]) cumulative(dest *metricdata.Aggregation) int {
 
 		if !s.noSum {
 			hDPts[i].Sum = val.total
+		} else {
+			// The destination point is reused memory: do not report what
+			// it held before.
+			hDPts[i].Sum = 0
 		}
 
 		if !s.noMinMax {
 			hDPts[i].Min = metricdata.NewExtrema(val.min)
 			hDPts[i].Max = metricdata.NewExtrema(val.max)
+		} else {
+			hDPts[i].Min = metricdata.Extrema[N]{}
+			hDPts[i].Max = metricdata.Extrema[N]{}
 		}
 
 		collectExemplars(&hDPts[i].Exemplars, val.res.Collect)
